@@ -194,7 +194,7 @@ impl Check for C02 {
         "exploration"
     }
     fn rule(&self) -> String {
-        "Each run is one simulated session: 1-12 world messages (values obtained by decoding model-peer frames; for the length sweep a WARDEN_DATA message of an exact body length followed by a second message) are written with the library's writers (sync/tokio/async-std, short writes, Pending, EINTR) onto one SimPipe stream and read back with the opcode-enum reader or the typed expect helper under a scheduled chunking. Compressed messages are included with large incompressible payloads (their writers are overridden). After a successful read a typed helper is also asked for the WRONG type: it must return an opcode error and still consume exactly the announced bytes. Enumerated part: every body length in 0..16, 0x7FF0..0x8010, 0xFFE8..0x10010 (and a few more) x 3 expansions x 2 directions, as far as the header form can express it. A run is non-trivial when at least one message was written and read and a chunk boundary, Pending or EINTR fell strictly inside a message; distinct = distinct event-log hashes (every transport call, every oracle verdict).".into()
+        "Each run is one simulated session: 1-12 world messages (values obtained by decoding model-peer frames; for the length sweep a WARDEN_DATA message of an exact body length followed by a second message) are written with the library's writers (sync/tokio/async-std, short writes, Pending, EINTR) onto one SimPipe stream and read back with the opcode-enum reader or the typed expect helper under a scheduled chunking. Compressed messages are included with large incompressible payloads (their writers are overridden). After a successful read a typed helper is also asked for the WRONG type: it must return an opcode error and still consume exactly the announced bytes. Every enumerated run and a quarter of the sampled sessions are repeated through the encrypting writers and decrypting readers (fixed key, real wow_srp halves; violations of that pass carry the prefix 'encrypted:'). Enumerated part: every body length in 0..16, 0x7FF0..0x8010, 0xFFE8..0x10010 (and a few more) x 3 expansions x 2 directions, as far as the header form can express it. A run is non-trivial when at least one message was written and read and a chunk boundary, Pending or EINTR fell strictly inside a message; distinct = distinct event-log hashes (every transport call, every oracle verdict).".into()
     }
     fn assumptions(&self) -> Vec<String> {
         vec![
